@@ -9,7 +9,7 @@ Require Import GV.Gen.LifecycleRules GV.Model.Lifecycle GV.Model.LifecycleChk GV
 Import ListNotations. Open Scope string_scope.
 """
 SNAPS = ["inYT-all off-2020-10-23 18_00_45.snapshot", "inXM-Idle-2020-12-09 11_14_06.snapshot", "inYJ-All off-2020-12-18 11_24_09.snapshot"]
-HEAL_BOUND = 400 + 20        # the model's bound for the idle configuration + sampling slack
+HEAL_BOUND = 420 + 20        # the model's bound for the idle configuration + sampling slack
 SKIP_EVENTS = {"LOCATING_DISCOVERED_SPA"}      # raised by the locator's hello consumer; no rule, no label (C15 covers discovery)
 
 
